@@ -869,10 +869,72 @@ def rename_at(T, p, name):
     ks = list(T[1]); ks[p[0]] = rename_at(ks[p[0]], p[1:], name)
     return (T[0], tuple(ks))
 
+def path_problems(taxo, rng, limit=80):
+    """get_path_up between a node and each of its ancestors = the nodes strictly between, youngest first; the expectation is
+    read off the children links from the root down (never off `.up`)"""
+    at = {}
+    stack = [((), taxo.tree)]
+    while stack:
+        p_, nd_ = stack.pop()
+        at[p_] = nd_
+        for i_, c_ in enumerate(nd_.children):
+            stack.append((p_ + (i_,), c_))
+    bad = []
+    ps_ = sorted(at)
+    for p_ in (ps_ if len(ps_) <= limit else rng.sample(ps_, limit)):
+        js_ = range(len(p_)) if len(p_) <= 12 else sorted(set([0, 1, len(p_) - 1] + [rng.randrange(len(p_)) for _ in range(4)]))
+        for j_ in js_:
+            want_ = [at[p_[:i_]] for i_ in range(len(p_) - 1, j_, -1)]
+            try:
+                got_ = list(taxo.get_path_up(at[p_], at[p_[:j_]]))
+            except Exception as e:      # noqa
+                bad.append('get_path_up(%s, %s) raised %s' % (taxS(p_)[-30:], taxS(p_[:j_])[-30:], type(e).__name__)); continue
+            if len(got_) != len(want_) or any(a_ is not b_ for a_, b_ in zip(got_, want_)):
+                bad.append('get_path_up(%s, %s) returns %d nodes, %d lie strictly between' % (taxS(p_)[-30:], taxS(p_[:j_])[-30:], len(got_), len(want_)))
+        if len(bad) > 5:
+            break
+    return bad
+
+def deep_taxonomy_case(ex, depth=260):
+    """a caterpillar of `depth` species, one family whose HOG sits one level below the root (so that its subtree is almost the
+    whole tree), the per-family profile of that HOG, then every clause of C18 that can be asked of the live taxonomy again
+    (r12-C18a: a pickle-based subtree copy that fails on deep trees and leaves the taxon detached)"""
+    T = ('I0', (('LA', ()), ('LB', ())))
+    for k_ in range(1, depth):
+        T = ('I%d' % k_, (T, ('L%d' % k_, ())))
+    T = ('ROOT', (T, ('LZ', ())))
+    D = gen.Dataset(T, 'own')
+    D.species = [('LA', [('a1', [('protId', 'Pa1')])]), ('L%d' % (depth - 1), [('b1', [('protId', 'Pb1')])]), ('LZ', [('z1', [])])]
+    D.groups = [('og', '1', None, [('ref', 'a1', None), ('ref', 'b1', None)])]
+    D.families = []; D.base_groups = list(D.groups); D.meta = dict(deep=depth)
+    bad = []
+    for naming in ('own', 'synth'):
+        D.naming = naming
+        try:
+            hh = core.load_py(D)
+            top = hh.get_list_top_level_hogs()[0]
+            before = path_problems(hh.taxonomy, ex.rng)
+            hh.create_tree_profile(hog=top)
+            for x_ in [c_ for c_ in top.children if isinstance(c_, ag.HOG)][:1]:
+                hh.create_tree_profile(hog=x_)
+            after = path_problems(hh.taxonomy, ex.rng)
+            for nd in hh.taxonomy.tree.traverse():
+                p_ = pathof(nd)
+                if nd.name != gen.display_name(T, p_, naming) or nd.depth != len(p_):
+                    after.append('after the profile of a HOG: name / depth of a node at depth %d is %r / %r' % (len(p_), str(nd.name)[:40], nd.depth)); break
+            bad += ['deep tree (%d levels, %s names): %s' % (depth, naming, x_) for x_ in (before + ['after the per-family profile of a HOG: ' + y_ for y_ in after])[:4]]
+        except Exception as e:      # noqa
+            bad.append('deep tree (%d levels, %s names): analysis / profile / path queries raised %s: %s' % (depth, naming, type(e).__name__, str(e)[:200]))
+    ex.res.count('deep_caterpillar_taxonomies')
+    if bad:
+        ex.fail('C18-deep', D, bad)
+
 def c18(tier, seed):
     import ete3
     ex = Explorer('C18', tier, seed)
     n = budget(tier, 250)
+    if os.environ.get('VERIF_SHARD', '0/1').startswith('0/'):
+        deep_taxonomy_case(ex, 260 + 10 * (seed % 5))
     for k in range(n):
         naming = ex.rng.choice(['own', 'synth'])
         T = gen.rand_tree(ex.rng, maxleaves=ex.rng.choice([2, 3, 4, 6, 9, 12]), fancy=ex.rng.random() < 0.6,
@@ -1011,7 +1073,11 @@ def c18(tier, seed):
             if not gen.has_unary(T) and len(names_) >= 4 and len(set(names_)) == len(names_):      # (a species named like a clade cannot be declared)
                 try:
                     Dh = gen.make_dataset(ex.rng, T=T, naming=naming, nfam=3, P=dict(species_split=0.0, dbsplit=0.0, late_species=0.0, latin1=0.0, unnamed_root=0.0))
-                    hh = core.load_py(Dh, **(dict(phyloxml_dir=ex.tmp) if k % 4 == 0 else {}))
+                    # (species_resolve_mode="OMA" changes how <species> names are resolved, never how nodes are named: r12-C18b)
+                    oma18 = ex.rng.random() < 0.3
+                    if oma18:
+                        ex.res.count('analyses_in_oma_species_resolve_mode')
+                    hh = core.load_py(Dh, **dict(dict(phyloxml_dir=ex.tmp) if k % 4 == 0 else {}, **(dict(species_resolve_mode='OMA') if oma18 else {})))
                     str0_ = hh.taxonomy.tree_str
                     hh.get_ascii_taxonomy()
                     subs_ = [x for t_ in hh.get_list_top_level_hogs() for x in all_nodes(t_) if isinstance(x, ag.HOG) and x.genome.taxon.up is not None]
@@ -1028,6 +1094,7 @@ def c18(tier, seed):
                             bad.append('after tree profiles: name / depth of %s is %r / %r' % (taxS(p_), nd.name, nd.depth))
                     if seen_ != len(list(gen.paths(T))):
                         bad.append('after tree profiles the species tree of the analysis has %d nodes, the input tree %d' % (seen_, len(list(gen.paths(T)))))
+                    bad += ['after tree profiles: ' + x_ for x_ in path_problems(hh.taxonomy, ex.rng, 30)[:3]]
                     if hh.taxonomy.get_newick_from_tree(hh.taxonomy.tree) != gen.newick_named(T, (), naming) + ';':
                         bad.append('after tree profiles: Newick of the root is %r' % hh.taxonomy.get_newick_from_tree(hh.taxonomy.tree))
                     if hh.taxonomy.tree_str != str0_:
